@@ -66,7 +66,7 @@ ASSUMPTIONS = [
 ]
 RULE = ("generated histories (setup + 3..9 operations from write same/different size, utime set (past or ~10^9 s in the future)/restore, rename-over, "
         "copy2, hard link, unlink, symlink, mkdir, cache clean-up, hash request in process 0/1 with mode "
-        "fresh|object|task) on 3 root names, 2 directories x 2 names; distinct = distinct operation list; "
+        "fresh|object|task) on 3 root names and 5 directories nested up to depth 3 (d0, d0/s0, d0/s0/t0, d1, d1/s0) x 2 names, a third of the histories hashing a directory with files rewritten one, two and three levels down; distinct = distinct operation list; "
         "non-trivial = some hash request asks for a target whose content differs from what it was at that target's "
         "previous hash request")
 
@@ -77,7 +77,9 @@ FUT = 3_000_000_000_000_000_000       # real ns value (year 2065, ~10^9 s ahead)
 FUT0 = 200                            # logical future mtimes are FUT0 .. FUT0+19: later than every kernel stamp NOW0+k
 NOW0 = 20                             # logical value of the kernel stamp of operation 0 (small: nat literals are unary)
 TOPS = [0, 1, 2]
-DIRS = [0, 1]
+DIRS = [0, 1, 2, 3, 4]                 # directory ids; nesting (= parentc in the Coq cases): 2 in 0, 3 in 2, 4 in 1
+DIRPATH = {0: "d0", 1: "d1", 2: "d0/s0", 3: "d0/s0/t0", 4: "d1/s0"}
+DIRID = {v: k for k, v in DIRPATH.items()}
 SUBS = [(d, n) for d in DIRS for n in (0, 1)]
 CONTENTS = ["aaaa", "bbbb", "cccc", "dd", "eeeeeeee"]
 IMPORTS = ["Model.FileHash", "Spec.FileHash"]
@@ -216,11 +218,11 @@ def enc_tree(tree):
     if tree is None:
         return None
     isdir, items = tree
-    return "%s %s" % (coqio.boolean(isdir), coqio.lst(["(IT %d %s)" % (n, coqio.string(c)) for n, c in items]))
+    return "%s %s" % (coqio.boolean(isdir), coqio.lst(["(IT %d %d %s)" % (r[0], r[1], coqio.string(c)) for r, c in items]))
 
 
 def enc_key(k):
-    return coqio.lst(["(KS %d %d %d %d %d)" % tuple(e) for e in k])
+    return coqio.lst(["(KS %d %d %d %d %d %d)" % ((e[0][0], e[0][1]) + tuple(e[1:])) for e in k])
 
 
 MODE = {"fresh": "MFresh", "obj": "MObj", "task": "MTask"}
@@ -262,18 +264,27 @@ class Exec:
 
     # ---- naming
     def rp(self, p):
-        return os.path.join(self.fs, "f%d" % p[1]) if p[0] == "top" else os.path.join(self.fs, "d%d" % p[1], "f%d" % p[2])
+        return os.path.join(self.fs, "f%d" % p[1]) if p[0] == "top" else os.path.join(self.rd(p[1]), "f%d" % p[2])
 
     def rd(self, d):
-        return os.path.join(self.fs, "d%d" % d)
+        return os.path.join(self.fs, DIRPATH[d])
 
     def unpath(self, s):
-        rel = os.path.relpath(s, self.fs).split(os.sep)
-        if len(rel) == 1 and rel[0][0] == "f":
-            return ("top", int(rel[0][1:]))
-        if len(rel) == 2 and rel[0][0] == "d" and rel[1][0] == "f":
-            return ("sub", int(rel[0][1:]), int(rel[1][1:]))
+        rel = os.path.relpath(s, self.fs)
+        d, base = os.path.dirname(rel), os.path.basename(rel)
+        if base[:1] == "f" and base[1:].isdigit():
+            if d == "":
+                return ("top", int(base[1:]))
+            if d in DIRID:
+                return ("sub", DIRID[d], int(base[1:]))
         raise ModelGap("path outside the universe: %s" % s)
+
+    def rel(self, tgt, path):
+        """relative name of a hashed file as the model codes it: (0, n) directly in the target, (x+1, n) in nested directory x"""
+        p = self.unpath(path)
+        if tgt[0] == "file":
+            return (0, 0)
+        return (0 if p[1] == tgt[1] else p[1] + 1, p[2])
 
     # ---- time
     def wait_tick(self):
@@ -365,22 +376,22 @@ class Exec:
             if not os.path.isfile(rp):
                 return None
             with open(rp, "rb") as f:
-                return (False, [(0, f.read().decode("ascii"))])
+                return (False, [((0, 0), f.read().decode("ascii"))])
         rd = self.rd(tgt[1])
         if not os.path.isdir(rd):
             return None
         items = []
-        for fn in sorted(os.listdir(rd)):
-            with open(os.path.join(rd, fn), "rb") as f:
-                items.append((int(fn[1:]), f.read().decode("ascii")))
-        return (True, items)
+        for m in self.members(tgt):
+            with open(m, "rb") as f:
+                items.append((self.rel(tgt, m), f.read().decode("ascii")))
+        return (True, sorted(items))
 
     def members(self, tgt):
-        """real paths of the files hashed for a target"""
+        """real paths of the files hashed for a target (a directory is walked at every depth)"""
         if tgt[0] == "file":
             return [os.path.realpath(self.rp(tgt[1]))]
         rd = self.rd(tgt[1])
-        return [os.path.join(rd, fn) for fn in sorted(os.listdir(rd))] if os.path.isdir(rd) else []
+        return sorted(os.path.join(d, fn) for d, _, fns in os.walk(rd) for fn in fns) if os.path.isdir(rd) else []
 
     # ---- one abstract operation
     def step(self, op):
@@ -458,9 +469,9 @@ class Exec:
                 return None
             out = []
             for path, ino, mtime, ctime, size in stats:
-                rel = 0 if tgt[0] == "file" else int(os.path.basename(path)[1:])
+                rel = (0, 0) if tgt[0] == "file" else self.rel(tgt, path)
                 out.append((rel, self.ino2log[ino], self.logical(mtime, []), self.logical(ctime, []), size))
-            return out
+            return sorted(out)
         except Exception:
             return None
 
@@ -485,9 +496,9 @@ class Exec:
             res = w.call(cmd="hash", kind=kind, path=path, mode=mode)
         store = len([f for f in os.listdir(self.hc) if not f.endswith(".lock")]) if os.path.isdir(self.hc) else 0
         if "hex" in res:
-            obs_tree = self.hex2tree.get(res["hex"], (True, [(99, "unknown digest")]))
+            obs_tree = self.hex2tree.get(res["hex"], (True, [((99, 99), "unknown digest")]))
             key = self.parse_key(tgt, res.get("key"))
-            obs = "(HOut %s %s %d)" % (enc_tree(obs_tree), enc_key(key) if key is not None else "[KS 98 98 0 0 0]", store)
+            obs = "(HOut %s %s %d)" % (enc_tree(obs_tree), enc_key(key) if key is not None else "[KS 98 98 98 0 0 0]", store)
             for m in self.members(tgt):
                 try:
                     self.hashed_mtime[m] = os.stat(m).st_mtime_ns
@@ -539,12 +550,17 @@ def run_history(root_parent, workers, ops):
 def gen_history(rng):
     nproc = rng.choice([1, 2, 2])
     ops = []
-    focus_kind = rng.choice(["top", "top", "sym", "dir", "sub", "link"])
+    focus_kind = rng.choice(["top", "top", "sym", "dir", "sub", "link", "deep", "deep", "deep1"])
     t0, t1, t2 = ("top", 0), ("top", 1), ("top", 2)
     s00, s01 = ("sub", 0, 0), ("sub", 0, 1)
     size4 = ["aaaa", "bbbb", "cccc"]
-    if focus_kind in ("dir", "sub") or rng.random() < 0.2:
+    s20, s30, s40, s41, s10 = ("sub", 2, 0), ("sub", 3, 0), ("sub", 4, 0), ("sub", 4, 1), ("sub", 1, 0)
+    if focus_kind in ("dir", "sub", "deep") or rng.random() < 0.2:
         ops.append(["mkdir", 0])
+    if focus_kind == "deep" or rng.random() < 0.1:
+        ops += [["mkdir", 2], ["mkdir", 3]]           # d0/s0, d0/s0/t0
+    if focus_kind == "deep1":
+        ops += [["mkdir", 1], ["mkdir", 4]]           # d1, d1/s0
     if focus_kind == "top":
         focus, members, other = ["file", t0], [t0], t1
     elif focus_kind == "sym":
@@ -553,6 +569,10 @@ def gen_history(rng):
         focus, members, other = ["file", t1], [t0, t1], t2
     elif focus_kind == "dir":
         focus, members, other = ["dir", 0], [s00, s01], t1
+    elif focus_kind == "deep":       # a directory input with files one, two and three levels down
+        focus, members, other = ["dir", 0], [s00, s20, s30], t1
+    elif focus_kind == "deep1":
+        focus, members, other = ["dir", 1], [s10, s40, s41], t1
     else:
         focus, members, other = ["file", s00], [s00], s01
     mt = rng.choice([5, 6, 5, FUT0, FUT0 + 1])      # a third of the histories pin mtimes far in the future
@@ -569,11 +589,11 @@ def gen_history(rng):
         return ["hash", rng.randrange(nproc), rng.choice(["fresh", "fresh", "obj", "obj", "task"]), t or focus]
 
     def any_path():
-        return list(rng.choice([t0, t1, t2, s00, s01, ("sub", 1, 0)]))
+        return list(rng.choice([t0, t1, t2, s00, s01, s10, s20, s30, s40]))
 
     def any_target():
         return rng.choice([["file", list(t0)], ["file", list(t1)], ["file", list(t2)], ["file", list(s00)], ["dir", 0],
-                           ["dir", 1], focus, focus])
+                           ["dir", 1], ["dir", 2], ["dir", 3], ["file", list(s20)], focus, focus, focus])
     ops.append(hash_op())
     for _ in range(rng.randint(2, 8)):
         r = rng.random()
@@ -616,22 +636,24 @@ def gen_history(rng):
 # ============================================================================ Coq side of a case
 EXTRA = """
 Definition nowc (k : nat) : nat := 20 + k.
+Definition parentc (d : name) : option name := match d with 2 => Some 0 | 3 => Some 2 | 4 => Some 1 | _ => None end.
 Definition gfs (o : fop) : @gop target fop := GFs o.
 Definition ghash (p : nat) (m : hmode) (t : target) : @gop target fop := GHash p m t.
 Definition gcl : @gop target fop := GCleanup.
 (* observations, with monomorphic constructors (cheap to elaborate) *)
 Inductive sdelta := SD (p : path) (kind i : nat) (c : string) (m ct nl : nat).
 Inductive ddelta := DD (d : name) (ex m c : nat).
-Inductive item := IT (n : name) (c : string).
-Inductive kst := KS (n : name) (i : ino) (m ct z : nat).
+Inductive item := IT (x n : nat) (c : string).
+Inductive kst := KS (x n : nat) (i : ino) (m ct z : nat).
 Inductive obs :=
 | OFs (sd : list sdelta) (dd : list ddelta)          (* after a file-system operation: what changed on disk *)
 | HOut (isdir : bool) (items : list item) (k : list kst) (store : nat)   (* a hash request answered *)
 | HErr (store : nat)                                 (* a hash request that raised *)
 | ONone.
 Definition case_t := (hist * list obs)%type.
-Definition universe : list path := [Top 0; Top 1; Top 2; Sub 0 0; Sub 0 1; Sub 1 0; Sub 1 1].
-Definition duniverse : list name := [0; 1].
+Definition universe : list path :=
+  [Top 0; Top 1; Top 2; Sub 0 0; Sub 0 1; Sub 1 0; Sub 1 1; Sub 2 0; Sub 2 1; Sub 3 0; Sub 3 1; Sub 4 0; Sub 4 1].
+Definition duniverse : list name := [0; 1; 2; 3; 4].
 Definition absent : snap := (0, 0, EmptyString, 0, 0, 0).
 Definition seen := (list (path * snap) * list (name * (nat * nat * nat)))%type.
 Fixpoint sget (p : path) (l : list (path * snap)) : snap :=
@@ -645,9 +667,9 @@ Definition fs_matches (fs : fsys) (cur : seen) : bool :=
   forallb (fun p => snap_eqb (snap_of fs p) (sget p (fst cur))) universe &&
   forallb (fun d => triple_eqb (dsnap_of fs d) (dget d (snd cur))) duniverse.
 Definition obs_digest (isdir : bool) (items : list item) : digest :=
-  (isdir, map (fun x => match x with IT n c => (n, Some c) end) items).
+  (isdir, map (fun x => match x with IT x n c => ((x, n), Some c) end) items).
 Definition obs_key (k : list kst) : list kstat :=
-  map (fun x => match x with KS n i m ct z => (n, i, Some (m, ct, z)) end) k.
+  map (fun x => match x with KS x n i m ct z => ((x, n), i, Some (m, ct, z)) end) k.
 Definition step_ok (cur : seen) (g : @gop target fop) (x : (fsys * cstate key digest) * option (option digest)) (o : obs)
   : bool * seen :=
   let fs := fst (fst x) in
@@ -657,7 +679,7 @@ Definition step_ok (cur : seen) (g : @gop target fop) (x : (fsys * cstate key di
   | ONone, None, GCleanup => (fs_matches fs cur && Nat.eqb nstore 0, cur)
   | HOut isdir items k n, Some (Some mo), GHash _ _ t =>
       (digest_eqb mo (obs_digest isdir items) && target_exists t fs &&
-       list_eqb kstat_eqb (snd (K_fixed t fs)) (obs_key k) && Nat.eqb nstore n && fs_matches fs cur, cur)
+       list_eqb kstat_eqb (snd (K_fixed parentc t fs)) (obs_key k) && Nat.eqb nstore n && fs_matches fs cur, cur)
   | HErr n, Some None, GHash _ _ t => (negb (target_exists t fs) && Nat.eqb nstore n, cur)
   | _, _, _ => (false, cur)
   end.
@@ -670,7 +692,7 @@ Fixpoint first_bad (i : nat) (cur : seen) (h : hist) (xs : list ((fsys * cstate 
   | _, _, _ => Some i
   end.
 Definition tie_ok (c : case_t) : bool :=
-  match first_bad 0 ([], []) (fst c) (model_states nowc K_fixed (fst c)) (snd c) with None => true | Some _ => false end.
+  match first_bad 0 ([], []) (fst c) (model_states nowc parentc (K_fixed parentc) (fst c)) (snd c) with None => true | Some _ => false end.
 Definition obs_outs (os : list obs) : list (option digest) :=
   flat_map (fun o => match o with
                      | HOut isdir items _ _ => [Some (obs_digest isdir items)]
@@ -678,9 +700,9 @@ Definition obs_outs (os : list obs) : list (option digest) :=
                      | _ => []
                      end) os.
 Definition outs_eqb := list_eqb (option_eqb digest_eqb).
-Definition spec_ok (c : case_t) : bool := outs_eqb (spec_out nowc (fst c)) (obs_outs (snd c)).
+Definition spec_ok (c : case_t) : bool := outs_eqb (spec_out nowc parentc (fst c)) (obs_outs (snd c)).
 (* not a check of the implementation: on which histories would the key before the repair go stale? *)
-Definition pinned_ok (c : case_t) : bool := outs_eqb (model_outputs nowc K_pinned (fst c)) (spec_out nowc (fst c)).
+Definition pinned_ok (c : case_t) : bool := outs_eqb (model_outputs nowc parentc K_pinned (fst c)) (spec_out nowc parentc (fst c)).
 """
 
 
@@ -873,12 +895,12 @@ Definition the_case : case_t := %s.
 """ % case_term
     try:
         vals = coqio.eval_terms(ctx.scratch, name, IMPORTS,
-                                ["first_bad 0 ([], []) (fst the_case) (model_states nowc K_fixed (fst the_case)) (snd the_case)",
-                                 "model_outputs nowc K_fixed (fst the_case)", "spec_out nowc (fst the_case)",
+                                ["first_bad 0 ([], []) (fst the_case) (model_states nowc parentc (K_fixed parentc) (fst the_case)) (snd the_case)",
+                                 "model_outputs nowc parentc (K_fixed parentc) (fst the_case)", "spec_out nowc parentc (fst the_case)",
                                  "obs_outs (snd the_case)",
-                                 "map (fun x => (map (fun p => snap_of (fst (fst x)) p) [Top 0; Top 1; Top 2; Sub 0 0; Sub 0 1; Sub 1 0; Sub 1 1], "
-                                 "map (dsnap_of (fst (fst x))) [0; 1], List.length (c_store (snd (fst x))))) "
-                                 "(model_states nowc K_fixed (fst the_case))"],
+                                 "map (fun x => (map (fun p => snap_of (fst (fst x)) p) universe, "
+                                 "map (dsnap_of (fst (fst x))) duniverse, List.length (c_store (snd (fst x))))) "
+                                 "(model_states nowc parentc (K_fixed parentc) (fst the_case))"],
                                 extra=extra)
         return {"first_step_where_model_and_observation_differ": vals[0], "model_outputs": vals[1], "spec_outputs": vals[2],
                 "observed_outputs": vals[3], "model_snapshots": vals[4]}
